@@ -14,3 +14,5 @@ import AnyTLS.Props.C09
 #print axioms AnyTLS.C09.failed_write_closes
 #print axioms AnyTLS.C09.every_schedule_is_bounded
 #print axioms AnyTLS.C09.stuck_means_finished
+#print axioms AnyTLS.C09.close_sets_closed
+#print axioms AnyTLS.C09.end_of_input_closes
